@@ -290,10 +290,13 @@ def gen_hist(rng):
     files = {}
     ngens = rng.randint(1, 2)
     task, labels = _id_task(rng, list(range(ngens)), files, "t0", rng.randint(2, 12), False)
-    return {"scenario": "hist", "prop": "C11", "labels": labels, "oracles": ORACLES,
+    spec = {"scenario": "hist", "prop": "C11", "labels": labels, "oracles": ORACLES,
             "cfg": {"flavour": rng.choice(["inc", "inc", "inc", "opaque", "weird"]), "salt": rng.getrandbits(32), "chunk_max": rng.choice([0, 0, 3]), "fs_seed": rng.getrandbits(30),
                     "drop": rng.random() < 0.5, "genclass": rng.choice(["plain", "plain", "journal", "duck", "own"])},
             "gens": ngens, "fs": {"files": files}, "tasks": [task]}
+    if rng.random() < 0.1:
+        spec["cfg"]["migrate"] = rng.choice(["alt", "all"])  # the history moves between threads (strictly sequential)
+    return spec
 
 
 def gen_inter(rng):
